@@ -19,6 +19,8 @@ pub enum Wrap {
     List,
     Set,
     MapStr,
+    /// map<SharedEnum, T>: a safe key, so the map is as safe as its value
+    MapEnum,
 }
 
 #[derive(Clone, Copy, Debug, PartialEq, Eq, Hash, PartialOrd, Ord)]
@@ -110,6 +112,7 @@ fn member_ir(m: Member, names: &[String]) -> (Value, Option<&'static str>) {
                 Wrap::List => json!({"type": "list", "list": {"itemType": r}}),
                 Wrap::Set => json!({"type": "set", "set": {"itemType": r}}),
                 Wrap::MapStr => json!({"type": "map", "map": {"keyType": prim("STRING"), "valueType": r}}),
+                Wrap::MapEnum => json!({"type": "map", "map": {"keyType": tref("SharedEnum"), "valueType": r}}),
             };
             (t, None)
         }
@@ -163,7 +166,7 @@ fn members(n: usize, thorough: bool) -> Vec<Member> {
     } else {
         vec![Member::DeclSafe, Member::DeclDnl, Member::Str, Member::Enum]
     };
-    let wraps: &[Wrap] = if thorough { &[Wrap::Plain, Wrap::Opt, Wrap::List, Wrap::Set, Wrap::MapStr] } else { &[Wrap::Plain, Wrap::MapStr] };
+    let wraps: &[Wrap] = if thorough { &[Wrap::Plain, Wrap::Opt, Wrap::List, Wrap::Set, Wrap::MapStr, Wrap::MapEnum] } else { &[Wrap::Plain, Wrap::MapStr, Wrap::MapEnum] };
     for i in 0..n {
         for w in wraps {
             v.push(Member::Ref(*w, i));
@@ -468,6 +471,13 @@ fn argument_declarations(r: &mut Report) {
         ("listSafeAlias", json!({"type": "list", "list": {"itemType": tref("SafeAlias")}}), true),
         ("mapEnumSafe", json!({"type": "map", "map": {"keyType": tref("E"), "valueType": tref("SafeAlias")}}), true),
         ("mapStrEnum", json!({"type": "map", "map": {"keyType": prim("STRING"), "valueType": tref("E")}}), false),
+        ("mapEnumStr", json!({"type": "map", "map": {"keyType": tref("E"), "valueType": tref("StrAlias")}}), false),
+        ("mapSafeAliasString", json!({"type": "map", "map": {"keyType": tref("SafeAlias"), "valueType": prim("STRING")}}), false),
+        ("mapEnumDnl", json!({"type": "map", "map": {"keyType": tref("E"), "valueType": tref("DnlAlias")}}), false),
+        ("mapDnlEnum", json!({"type": "map", "map": {"keyType": tref("DnlAlias"), "valueType": tref("E")}}), false),
+        ("setEnum", json!({"type": "set", "set": {"itemType": tref("E")}}), true),
+        ("listString", json!({"type": "list", "list": {"itemType": prim("STRING")}}), false),
+        ("optUnsafeObj", json!({"type": "optional", "optional": {"itemType": tref("UnsafeObj")}}), false),
         ("safeObj", tref("SafeObj"), true),
         ("unsafeObj", tref("UnsafeObj"), false),
         ("any", prim("ANY"), false),
@@ -484,6 +494,12 @@ fn argument_declarations(r: &mut Report) {
         ("tag", json!({"tags": ["safe"]}), Box::new(|_| true)),
         ("other-marker", json!({"markers": [other_marker]}), Box::new(|t| t)),
         ("other-tag", json!({"tags": ["unsafe", "Safe"]}), Box::new(|t| t)),
+        ("tag-with-safe-prefix", json!({"tags": ["safe-to-retry", "safety-reviewed"]}), Box::new(|t| t)),
+        ("tag-safe-colon", json!({"tags": ["safe: false", "safe:"]}), Box::new(|t| t)),
+        ("tag-padded-or-upper", json!({"tags": [" safe", "safe ", "SAFE", "notsafe"]}), Box::new(|t| t)),
+        ("tag-among-others", json!({"tags": ["incubating", "safe", "zzz"]}), Box::new(|_| true)),
+        ("similar-marker", json!({"markers": [json!({"type": "external", "external": {"externalReference": {"name": "SafeArg", "package": "com.palantir.logsafe"}, "fallback": prim("ANY")}}), json!({"type": "external", "external": {"externalReference": {"name": "Safe", "package": "com.palantir.logsafe.extra"}, "fallback": prim("ANY")}}), json!({"type": "external", "external": {"externalReference": {"name": "Unsafe", "package": "com.palantir.logsafe"}, "fallback": prim("ANY")}})]}), Box::new(|t| t)),
+        ("marker-among-others", json!({"markers": [json!({"type": "external", "external": {"externalReference": {"name": "Incubating", "package": "com.palantir.foo"}, "fallback": prim("ANY")}}), marker.clone()]}), Box::new(|_| true)),
         ("UNSAFE+marker", json!({"safety": "UNSAFE", "markers": [marker.clone()]}), Box::new(|_| false)),
         ("DO_NOT_LOG+tag", json!({"safety": "DO_NOT_LOG", "tags": ["safe"]}), Box::new(|_| false)),
     ];
